@@ -96,6 +96,7 @@ type Path struct {
 	covers  map[string]bool
 	unknown int
 	notes   []string
+	pcSet   map[*Term]bool
 }
 
 func (p *Path) fresh(tag string, s Sort) *Term {
@@ -122,8 +123,34 @@ func (p *Path) addPC(c *Term) {
 	if c == TTrue {
 		return
 	}
+	if p.pcSet == nil {
+		p.pcSet = map[*Term]bool{}
+	}
+	addConj(p.pcSet, c)
 	p.pc = append(p.pc, c)
 	p.ex.solver.Assert(c)
+}
+
+func addConj(m map[*Term]bool, c *Term) {
+	for c.op == OpBAnd {
+		addConj(m, c.args[0])
+		c = c.args[1]
+	}
+	m[c] = true
+}
+
+// impliedSyntactically: every conjunct of c is literally on the path condition.
+func (p *Path) impliedSyntactically(c *Term) bool {
+	if p.pcSet == nil {
+		return false
+	}
+	for c.op == OpBAnd {
+		if !p.impliedSyntactically(c.args[0]) {
+			return false
+		}
+		c = c.args[1]
+	}
+	return p.pcSet[c]
 }
 
 func (p *Path) check(c *Term) SatResult {
@@ -233,6 +260,12 @@ func (p *Path) MustHold(c *Term, kind, label, msg string, in *Interp) bool {
 		if d.val == 1 {
 			p.addPC(c)
 		}
+		return true
+	}
+	if p.impliedSyntactically(c) {
+		p.ex.res.Discharged++
+		p.ex.res.Trivial++
+		p.trace = append(p.trace, Decision{2, true})
 		return true
 	}
 	neg := Not(c)
